@@ -9,7 +9,9 @@ import (
 	"crypto/rsa"
 	"crypto/sha256"
 	"fmt"
+	"math/big"
 
+	hpke "github.com/cisco/go-hpke"
 	"github.com/cloudflare/circl/blindsign/blindrsa"
 
 	"github.com/cloudflare/pat-go/tokens/type3"
@@ -24,9 +26,9 @@ func init() {
 		Level: "exploration",
 		Rule: "RateLimitedIssuer.Evaluate(bytes) on requests built two ways: by pat-go's client, and entirely by the harness (own encoder, own HPKE sealing with the AAD of the draft, own key-blinded signer over crypto/ecdsa). Honest requests for a registered origin must be served and the response must finalize to a token valid under rsa.VerifyPSS. " +
 			"Must be rejected with an error and a nil response: every single-bit flip of an accepted encoding (exhaustive), every truncation, a trailing byte, a missing signature, unregistered origins (near misses of the registered names), requests sealed to another issuer's name key (key id kept and replaced), requests re-signed by an unrelated key, request key replaced and correctly re-signed (only the AAD binding catches it), AAD variants that drop or alter one component, inner requests truncated before encryption (with the empty origin registered). " +
-			"distinct_nontrivial = distinct (request, tampering class, position) keys",
-		Floors:      []string{"served_pat_go_client", "served_harness_built", "response_finalized_valid", "bitflips_rejected", "truncations_rejected", "unregistered_origin_rejected", "foreign_name_key_rejected", "resigned_rejected", "aad_binding_rejected", "inner_truncated_rejected"},
-		Assumptions: []string{"the issuer's HPKE private key is not observable: acceptance is fixed by construction of each case", "an inner request with trailing bytes after the padded origin is only counted (no rule in the statement)"},
+			"Differential part: on an issuer whose name key is derived from a seed known to the harness (verif-tagged hook) the harness decides every generated input itself (own parser, own HPKE open through go-hpke, own unpadding, origin lookup, crypto/ecdsa) - multi-bit and byte mutations, field splices between honest requests with and without re-signing, replaced-and-re-signed name key ids, (r, N-s), padded-origin and inner-request variants, foreign name keys, altered AADs - and Evaluate must agree. distinct_nontrivial = distinct (request, tampering class, position) and (class, reference reason) keys",
+		Floors:      []string{"served_pat_go_client", "served_harness_built", "response_finalized_valid", "bitflips_rejected", "truncations_rejected", "unregistered_origin_rejected", "foreign_name_key_rejected", "resigned_rejected", "aad_binding_rejected", "inner_truncated_rejected", "differential_agree_accept", "differential_agree_reject", "differential_reject_signature", "differential_reject_hpke-open", "differential_reject_unregistered-origin", "differential_reject_outer-parse"},
+		Assumptions: []string{"enumerated part: acceptance is fixed by construction of each case; differential part: the issuer's name key comes from a known seed through the verif hook", "an inner request with trailing bytes after the padded origin is only counted (no rule in the statement)"},
 		Run:         runC07,
 	})
 }
@@ -243,7 +245,7 @@ func runC07(c *core.Ctx) {
 	must(err)
 	w.keyID = w.issuer.TokenKeyID()
 
-	nHonest := c.Pick(6, 30)
+	nHonest := c.Pick(6, 60)
 	for hi := 0; hi < nHonest; hi++ {
 		hr := c.IdxRng("honest", int64(hi))
 		origin := registered[hi%len(registered)]
@@ -386,6 +388,7 @@ func runC07(c *core.Ctx) {
 		}
 	}
 	c.Exhaustive("single-bit flips and truncations of every honest harness-built request")
+	c07Differential(c)
 }
 
 func isRegistered(reg []string, o string) bool {
@@ -399,4 +402,201 @@ func isRegistered(reg []string, o string) bool {
 		}
 	}
 	return false
+}
+
+// ---------------------------------------------------------------- differential part
+//
+// With the verif-tagged hook the issuer's HPKE name key is derived from a seed
+// the harness knows, so the harness can decide *itself*, for an arbitrary byte
+// string, whether the statement allows a response: own fixed-offset parser,
+// own HPKE open (go-hpke called directly with the AAD of the draft), own
+// unpadding, registered-origin lookup, crypto/ecdsa verification. pat-go's
+// Evaluate must agree on every generated input, not only on the enumerated
+// tamperings above.
+
+type c07Ref struct {
+	suite      hpke.CipherSuite
+	sk         hpke.KEMPrivateKey
+	nk         *nameKeyInfo
+	registered map[string]bool
+	modulus    *big.Int
+}
+
+// decide returns (accept, reason, judged). judged=false marks inputs on which the statement is silent
+// (inner request with trailing bytes, blinded message equal to the modulus).
+func (f *c07Ref) decide(b []byte) (bool, string, bool) {
+	p, ok := t3ParseRequest(b)
+	if !ok {
+		return false, "outer-parse", true
+	}
+	if len(p.Ciphertext) < 32 {
+		return false, "short-ciphertext", true
+	}
+	ctx, err := hpke.SetupBaseR(f.suite, f.sk, p.Ciphertext[:32], []byte("TokenRequest"))
+	if err != nil {
+		return false, "hpke-setup", true
+	}
+	pt, err := ctx.Open(f.nk.aad(p.RequestKey, f.nk.keyID()), p.Ciphertext[32:])
+	if err != nil {
+		return false, "hpke-open", true
+	}
+	if len(pt) < 259 {
+		return false, "inner-parse", true
+	}
+	ol := int(pt[257])<<8 | int(pt[258])
+	if len(pt) < 259+ol {
+		return false, "inner-parse", true
+	}
+	judged := len(pt) == 259+ol
+	origin := stripZeros(string(pt[259 : 259+ol]))
+	if !f.registered[origin] {
+		return false, "unregistered-origin", true
+	}
+	curve := elliptic.P384()
+	qx, qy, ok := ref.ECDecompress(curve, p.RequestKey)
+	if !ok {
+		return false, "request-key", true
+	}
+	r := new(big.Int).SetBytes(p.Signature[:48])
+	s := new(big.Int).SetBytes(p.Signature[48:])
+	if !stdECDSAVerify(curve, qx, qy, sha512Sum384(t3SignedMessage(p.RequestKey, p.NameKeyID, p.Ciphertext)), r, s) {
+		return false, "signature", true
+	}
+	m := new(big.Int).SetBytes(pt[1:257])
+	switch m.Cmp(f.modulus) {
+	case 1:
+		return false, "blinded-message-out-of-range", true
+	case 0:
+		judged = false
+	}
+	return true, "accept", judged
+}
+
+func c07Differential(c *core.Ctx) {
+	rk := RSAKeys()
+	key := rk[5%len(rk)]
+	seed := c.Rng("namekey").Bytes(32)
+	base := type3.NewRateLimitedIssuer(key)
+	issuer, err := type3.VerifNewRateLimitedIssuerWithNameKey(base, seed)
+	must(err)
+	registered := []string{"origin.example", "", "b.example", string(alnum(c.Rng("ro"), 64))}
+	f := &c07Ref{registered: map[string]bool{}, modulus: key.N}
+	for _, o := range registered {
+		issuer.AddOrigin(o)
+		f.registered[o] = true
+	}
+	f.suite, err = hpke.AssembleCipherSuite(hpke.DHKEM_X25519, hpke.KDF_HKDF_SHA256, hpke.AEAD_AESGCM128)
+	must(err)
+	f.sk, _, err = f.suite.KEM.DeriveKeyPair(seed)
+	must(err)
+	f.nk, err = parseNameKey(issuer.NameKey().Marshal())
+	must(err)
+	w := &c07World{c: c, key: key, issuer: issuer, nk: f.nk, keyID: issuer.TokenKeyID()}
+	other := type3.NewRateLimitedIssuer(key)
+	w.nkO, err = parseNameKey(other.NameKey().Marshal())
+	must(err)
+
+	judge := func(b []byte, class string) {
+		c.Eval(1)
+		c.Note("Evaluate differential " + class)
+		want, why, judged := f.decide(b)
+		resp, _, err, pan, pv, where := w.eval(b)
+		d := map[string]any{"class": class, "request": core.Hex(b), "reference": why}
+		if pan {
+			d["panic"] = pv
+			c.Violation("Evaluate:panic:"+where, "Evaluate panicked: "+pv, d)
+			return
+		}
+		if !judged {
+			c.Class("differential_not_judged")
+			return
+		}
+		got := err == nil
+		if got != want {
+			if got {
+				c.Violation("Evaluate:differential:served:"+why, "the issuer served a request the reference decision refuses ("+why+", "+class+")", d)
+			} else {
+				c.Violation("Evaluate:differential:refused-authentic:"+classKey(class), "the issuer refused a request that parses, decrypts, names a registered origin and is correctly signed ("+class+"): "+err.Error(), d)
+			}
+			return
+		}
+		if got && resp == nil {
+			c.Violation("Evaluate:differential:no-response", "nil error without a response", d)
+			return
+		}
+		if want {
+			c.Class("differential_agree_accept")
+		} else {
+			c.Class("differential_agree_reject")
+			c.Class("differential_reject_" + why)
+		}
+		c.Distinctf("diff:%s:%s", classKey(class), why)
+	}
+
+	n := c.Pick(60, 6000)
+	for i := 0; i < n; i++ {
+		if !c.Next() {
+			continue
+		}
+		r := c.CaseRng()
+		origin := registered[r.IntN(len(registered))]
+		if r.Coin(5) {
+			origin = string(alnum(r, 1+r.IntN(70)))
+		}
+		a := w.build(r, c07Opts{origin: origin})
+		b := w.build(r, c07Opts{origin: registered[r.IntN(len(registered))]})
+		pa, _ := t3ParseRequest(a.enc)
+		pb, _ := t3ParseRequest(b.enc)
+		judge(a.enc, "built")
+		// multi-bit and byte-level mutations
+		for k := 0; k < 12; k++ {
+			m := clone(a.enc)
+			for j := 0; j < 1+r.IntN(4); j++ {
+				m[r.IntN(len(m))] ^= byte(1 << uint(r.IntN(8)))
+			}
+			judge(m, "multi-bitflip")
+		}
+		for k := 0; k < 4; k++ {
+			m := clone(a.enc)
+			m[r.IntN(len(m))] = byte(r.IntN(256))
+			judge(m, "byte-set")
+		}
+		// field splices between two honest requests, unsigned and re-signed
+		judge(t3Request(pa.RequestKey, pa.NameKeyID, pb.Ciphertext, pa.Signature), "splice:ciphertext-of-other")
+		judge(t3Request(pa.RequestKey, pa.NameKeyID, pb.Ciphertext, a.signer.sign(r, t3SignedMessage(pa.RequestKey, pa.NameKeyID, pb.Ciphertext))), "splice:ciphertext-of-other-resigned")
+		judge(t3Request(pb.RequestKey, pa.NameKeyID, pa.Ciphertext, b.signer.sign(r, t3SignedMessage(pb.RequestKey, pa.NameKeyID, pa.Ciphertext))), "splice:key-of-other-resigned")
+		judge(t3Request(pa.RequestKey, pb.NameKeyID, pa.Ciphertext, pa.Signature), "splice:name-key-id-of-other")
+		// a different name key id, correctly re-signed: the statement binds the id only through the signature
+		nkid := r.Bytes(32)
+		judge(t3Request(pa.RequestKey, nkid, pa.Ciphertext, a.signer.sign(r, t3SignedMessage(pa.RequestKey, nkid, pa.Ciphertext))), "name-key-id-replaced-resigned")
+		// (r, N-s): the other valid ECDSA signature for the same message
+		{
+			sig := clone(pa.Signature)
+			N := elliptic.P384().Params().N
+			new(big.Int).Sub(N, new(big.Int).SetBytes(sig[48:])).FillBytes(sig[48:])
+			judge(t3Request(pa.RequestKey, pa.NameKeyID, pa.Ciphertext, sig), "signature-s-negated")
+		}
+		// padded origin variants sealed properly
+		for _, po := range [][]byte{refPadOrigin(origin), append(refPadOrigin(origin), make([]byte, 32)...), []byte(origin), append([]byte(origin), 0), nil, make([]byte, 64)} {
+			judge(w.build(r, c07Opts{origin: origin, paddedOrigin: po}).enc, "padded-origin-variant")
+		}
+		// inner request variants: blinded message out of range, truncated, trailing
+		full := a.innerEnc
+		big1 := clone(full)
+		for j := 1; j <= 256; j++ {
+			big1[j] = 0xff
+		}
+		judge(w.build(r, c07Opts{origin: origin, innerPlain: big1}).enc, "inner-blinded-message-too-large")
+		judge(w.build(r, c07Opts{origin: origin, innerPlain: full[:len(full)-1]}).enc, "inner-truncated")
+		judge(w.build(r, c07Opts{origin: origin, innerPlain: append(clone(full), 7)}).enc, "inner-trailing")
+		// sealed to the other issuer, or with an altered AAD
+		judge(w.build(r, c07Opts{origin: origin, sealTo: w.nkO}).enc, "foreign-name-key")
+		judge(w.build(r, c07Opts{origin: origin, aadMod: func(x []byte) []byte { o := clone(x); o[r.IntN(len(o))] ^= 1; return o }}).enc, "aad-bitflip")
+		// truncations / extensions at seeded positions
+		judge(a.enc[:r.IntN(len(a.enc))], "truncated")
+		judge(append(clone(a.enc), r.Bytes(1+r.IntN(5))...), "extended")
+		if i == 0 {
+			c.Sample("differential case", map[string]any{"origin": origin, "request_len": len(a.enc)})
+		}
+	}
 }
